@@ -25,6 +25,7 @@ COMBOS = [("Smooth", "UnitSquare"), ("Smooth", "PiSquare"), ("Singular", "UnitSq
     [(p, d) for p in ("Dirichlet", "MildSingular") for d in ("UnitSquare", "PiSquare", "LShape", "Circle")]
 CFG_M = "CONSTANTS MaxIter = 2\nSPECIFICATION Spec\nINVARIANT DefaultsRun\nINVARIANT ResidualAfterSolve\nINVARIANT RejectedFailEarly\nCHECK_DEADLOCK FALSE\n"
 CFG_D = "CONSTANTS MaxIter = 1\nSPECIFICATION Spec\nINVARIANT AnyFlagsRun\nCHECK_DEADLOCK FALSE\n"
+CFG_S = "CONSTANTS MaxRuns = 3\nKeyHasProblem = TRUE\nInlineAtStart = TRUE\nSPECIFICATION Spec\nINVARIANT OwnData\nINVARIANT NoForeignFile\nCHECK_DEADLOCK FALSE\n"
 CFG_T = "CONSTANTS MaxIter = 1\nSPECIFICATION TSpec\nINVARIANT Report\nPOSTCONDITION Done\nCHECK_DEADLOCK FALSE\n"
 
 
@@ -67,6 +68,30 @@ def run(prop, tier, seed):
                 if quick and (exact == 1 and d in ("Circle",)):
                     continue
                 jobs.append(("pipeline", p, d, exact, seed * 100 + len(jobs), n))
+    # several driver runs from one working directory (Sessions.tla): the cache directory persists
+    sessions = [("Singular", "UnitSquare", 0, "Smooth"), ("Smooth", "UnitSquare", 0, "Singular"),
+                ("Singular", "UnitSquare", 1, "Smooth"), ("Smooth", "UnitSquare", 1, "Singular"),
+                ("MildSingular", "UnitSquare", 0, "Dirichlet"), ("Dirichlet", "Circle", 0, "MildSingular"),
+                ("Smooth", "PiSquare", 0, "Dirichlet"), ("Singular", "LShape", 0, "Singular")]
+    if not quick:
+        sessions += [("Singular", "UnitSquare", 0, "Dirichlet,Smooth"), ("Smooth", "UnitSquare", 0, "Singular,Smooth"),
+                     ("Dirichlet", "LShape", 1, "Singular"), ("MildSingular", "PiSquare", 1, "Smooth")]
+    for p, d, exact, prior in sessions:
+        jobs.append(("session", p, d, exact, prior))
+    rs = tlc.run_tlc("Sessions", CFG_S, timeout=900)
+    model["sessions_tlc"] = rs.stats()
+    if rs.machinery_error:
+        ctx.machinery_error("Sessions.tla: " + rs.machinery_error)
+    elif not rs.ok:
+        ctx.violation("model:Sessions:%s" % rs.violated, "Sessions.tla violates %s" % rs.violated, {"tlc_output_tail": rs.output[-2000:]})
+    rs2 = tlc.run_tlc("Sessions", CFG_S.replace("InlineAtStart = TRUE", "InlineAtStart = FALSE"), timeout=900)
+    model["sessions_tlc_files_for_V"] = rs2.stats()
+    if not rs2.ok and not rs2.machinery_error:
+        ctx.violation("model:Sessions:files:%s" % rs2.violated, "Sessions.tla (matrix files) violates %s" % rs2.violated, {"tlc_output_tail": rs2.output[-2000:]})
+    rsd = tlc.run_tlc("Sessions", CFG_S.replace("KeyHasProblem = TRUE", "KeyHasProblem = FALSE"), timeout=900)
+    model["sessions_key_without_problem"] = "OwnData violated (as it must be)" if rsd.violated == "OwnData" else "NOT violated"
+    if rsd.violated != "OwnData" and not rsd.machinery_error:
+        ctx.machinery_error("Sessions.tla is insensitive to the cache key (diagnostic configuration not violated)")
     with ThreadPoolExecutor(max_workers=14) as ex:
         results = list(ex.map(worker, jobs))
     recs = []
